@@ -2,9 +2,11 @@
 package props
 
 import (
+	"encoding/json"
 	"fmt"
 	"sort"
 	"time"
+	"verifmc/internal/spec"
 
 	"github.com/RoaringBitmap/roaring/v2"
 	"verifmc/internal/ev"
@@ -38,6 +40,10 @@ type Driver struct {
 }
 
 var Drivers = map[string]Driver{}
+
+// CageFamilies: case families executed in worker subprocesses (see env/cage.go).
+// A family returns the number of cases and the function that runs case id.
+var CageFamilies = map[string]func(tier string) (int, func(id int) string){}
 
 func ids() []string {
 	var o []string
@@ -134,3 +140,8 @@ func checkValid32(api string, b *roaring.Bitmap) *ev.Fail {
 func key32(b *roaring.Bitmap, m *model.Set32) string {
 	return fmt.Sprintf("%016x#%s", m.Hash(), extract.Sig(roaring.VerifViewOf(b), true))
 }
+
+func jsonUnmarshal(raw []byte, v any) error { return json.Unmarshal(raw, v) }
+
+// specDecode parses a portable 32-bit stream with the independent decoder.
+func specDecode(b []byte) ([]spec.Chunk, int, error) { return spec.DecodePortable(b, false) }
